@@ -303,6 +303,21 @@ UNITS = {
             I(RAW, r'^impl < T , A : Allocator > RawTable < T , A >$', 'get_many_mut', impl='RawTable<T>', key='RawTable::get_many_mut'),
         ],
     ),
+    # C03 / C10: drop and clear glue
+    'dropglue': dict(
+        widths=[16],
+        prelude='preludes/dropglue.rs',
+        specs='contracts/dropglue.vspec',
+        lemmas=['lemmas/dropglue_lemmas.rs'],
+        extra='dropglue_rules',
+        items=[
+            I(RAW, r'^impl RawTableInner$', 'drop_inner_table', impl='RawTableInner'),
+            I(RAW, r'^impl < T , A : Allocator > Drop for RawTable < T , A >$', 'drop', impl='RawTable<T, A>|<T, A: Allocator>', key='RawTable::drop'),
+            I(RAW, r'^impl < T , A : Allocator > RawTable < T , A >$', 'clear_no_drop', impl='RawTable<T, A>|<T, A: Allocator>', key='RawTable::clear_no_drop'),
+            I(RAW, r'^impl < T , A : Allocator > RawTable < T , A >$', 'clear', impl='RawTable<T, A>|<T, A: Allocator>', key='RawTable::clear'),
+            dict(I(RAW, r"^impl < T , A : Allocator > Drop for RawDrain < '_ , T , A >$", 'drop', impl='RawDrain<T, A>|<T, A: Allocator>', key='RawDrain::drop'), in_drain=True),
+        ],
+    ),
 }
 
 
@@ -1160,6 +1175,74 @@ def many_rules(toks, i, out, hit):
     return None
 
 
+def dropglue_rules(toks, i, out, hit):
+    """unit `dropglue`:
+       R14  `Self::TABLE_LAYOUT` -> `Self::table_layout()`
+       R18d a scope guard that is NOT forgotten runs its closure when the enclosing block ends:
+            `let mut G = guard(X, |P| BODY);  REST` -> `REST  BODY;` with G and P renamed X (P and G carry the same name here)
+       R31  `X.as_ptr().copy_from_nonoverlapping(&Y, 1)` -> `X.write_back(&Y)`; `::<T, _>` turbofish -> `::<T, A>`"""
+    t = toks[i]
+    n = len(toks)
+    T = extract.T
+
+    def seq(k, *texts):
+        return k + len(texts) <= n and all(toks[k + a].text == x for a, x in enumerate(texts))
+    if t.kind == 'id' and t.text == 'fn':
+        _FLAGS['defer'] = None
+        _FLAGS['gname'] = None
+    if t.text == 'Self' and seq(i + 1, ':', ':', 'TABLE_LAYOUT'):
+        out.extend([T('Self', t.gap), T(':', ''), T(':', ''), T('table_layout', ''), T('(', ''), T(')', '')])
+        hit('R14_assoc_const_TABLE_LAYOUT_to_opaque_fn')
+        return i + 4
+    if t.text == ':' and seq(i + 1, ':', '<', 'T', ',', '_', '>'):
+        out.extend([T(':', ''), T(':', ''), T('<', ''), T('T', ''), T(',', ''), T('A'), T('>', '')])
+        hit('R31_inferred_turbofish_spelled_out')
+        return i + 7
+    if t.text == 'let' and seq(i + 1, 'mut') and toks[i + 2].kind == 'id' and seq(i + 3, '=', 'guard', '(') and toks[i + 6].kind == 'id' and seq(i + 7, ',', '|') \
+            and toks[i + 9].kind == 'id' and seq(i + 10, '|'):
+        G, X, P = toks[i + 2].text, toks[i + 6].text, toks[i + 9].text
+        c = extract._find_close(toks, i + 5)
+        if toks[c + 1].text != ';' or P != G:
+            raise ExtractError('R18d: unexpected shape of the scope guard')
+        body = toks[i + 11:c]
+        _FLAGS['defer'] = [T(X if y.text == P else y.text, y.gap, y.kind) for y in body]
+        _FLAGS['gname'] = (G, X)
+        _FLAGS['defer_depth'] = 0
+        hit('R18d_scope_guard_closure_deferred_to_block_end')
+        return c + 2
+    if _FLAGS.get('gname') and t.kind == 'id' and t.text == _FLAGS['gname'][0] and not (out and out[-1].text == '.'):
+        out.append(T(_FLAGS['gname'][1], t.gap))
+        return i + 1
+    if _FLAGS.get('defer') is not None:
+        if t.text == '{':
+            _FLAGS['defer_depth'] += 1
+        elif t.text == '}':
+            if _FLAGS['defer_depth'] == 0:
+                # the block that declared the guard ends: run the closure body
+                d = _FLAGS['defer']
+                _FLAGS['defer'] = None
+                _FLAGS['gname'] = None
+                out.extend([T(x.text, x.gap if k else '\n', x.kind) for k, x in enumerate(d)] + [T(';', '')])
+                out.append(t)
+                return i + 1
+            _FLAGS['defer_depth'] -= 1
+    # R32: inside RawDrain the raw iterator ranges over the elements of the drain's own table: `self.iter.drop_elements()`
+    #      -> `self.iter_drop_elements()` (a method of the drain that marks ITS table's elements dropped)
+    if t.text == 'self' and seq(i + 1, '.', 'iter', '.', 'drop_elements', '(', ')') and _FLAGS.get('in_drain'):
+        out.extend([T('self', t.gap), T('.', ''), T('iter_drop_elements', ''), T('(', ''), T(')', '')])
+        hit('R32_drain_iterator_drop_tied_to_its_table')
+        return i + 7
+    if t.text == '.' and seq(i + 1, 'as_ptr', '(', ')', '.', 'copy_from_nonoverlapping', '('):
+        c = extract._find_close(toks, i + 6)
+        args = extract._split_args(toks[i + 7:c])
+        if len(args) != 2 or [x.text for x in args[1]] != ['1']:
+            raise ExtractError('R31: unexpected shape of copy_from_nonoverlapping')
+        out.extend([T('.', ''), T('write_back', ''), T('(', '')] + extract.rewrite(args[0], set(), _HITS, dropglue_rules) + [T(')', '')])
+        hit('R31_table_moved_back_into_the_map')
+        return c + 1
+    return None
+
+
 def generate(unit_name, width, outdir):
     u = UNITS[unit_name]
     specs = {}
@@ -1175,6 +1258,7 @@ def generate(unit_name, width, outdir):
     for it in u['items']:
         spec = specs.get(it['key'])
         _FLAGS['value_type'] = it.get('value_type')
+        _FLAGS['in_drain'] = it.get('in_drain')
         if spec is None:
             raise ExtractError('no contract for %s in %s' % (it['key'], u['specs']))
         if it.get('closure'):
